@@ -375,6 +375,10 @@ fn interleave_menu() -> Vec<(&'static str, &'static str, Vec<&'static str>)> {
     vec![
         ("SET", "direct", vec!["SET", "k", "v"]), ("RPUSH", "direct", vec!["RPUSH", "l", "x"]), ("SADD", "direct", vec!["SADD", "s", "a", "b", "c"]), ("SPOP", "direct", vec!["SPOP", "s"]),
         ("INCR in EXEC", "exec", vec!["INCR", "n"]), ("SET via EVAL", "eval", vec!["SET", "k", "scripted"]), ("DEL", "direct", vec!["DEL", "k"]), ("XADD *", "direct", vec!["XADD", "st", "*", "f", "v"]),
+        // a SELECT queued in the transaction: the write runs in the next connection's database and the connection
+        // selects its own one again before EXEC (a seeded change wrote queued SELECTs into the log verbatim, which
+        // put the log's idea of the current database out of step with the replaying connection)
+        ("SET behind a queued SELECT", "exec-select", vec!["SET", "k", "queued"]),
     ]
 }
 
@@ -410,7 +414,14 @@ fn run_interleaved(t: &mut Twin, turns: &[(usize, usize)]) -> Result<CaseOut, St
         let (_, path, cmd) = &menu[*mi];
         let cmd = to_bytes(cmd);
         let mut replies = Vec::new();
-        for req in via(path, &cmd, &None) {
+        let reqs: Vec<Vec<Bytes>> = if *path == "exec-select" {
+            let own = INTERLEAVE_DBS[*ci].to_string();
+            let there = INTERLEAVE_DBS[(*ci + 1) % INTERLEAVE_DBS.len()].to_string();
+            vec![vec![b("MULTI")], vec![b("SELECT"), b(&there)], cmd.clone(), vec![b("SELECT"), b(&own)], vec![b("EXEC")]]
+        } else {
+            via(path, &cmd, &None)
+        };
+        for req in reqs {
             replies.push(t.l.call(&mut conns[*ci], &req).map_err(|e| format!("L {}: {:?}", resp::show_cmd(&req), e))?);
         }
         trace.push(format!("connection in db{} [{}] {} -> {}", INTERLEAVE_DBS[*ci], path, resp::show_cmd(&cmd), replies.iter().map(resp::class).collect::<Vec<_>>().join(",")));
@@ -736,7 +747,7 @@ pub fn parent(tier: &str) -> i32 {
     report.coverage = json!({
         "states": histories.max(1), "transitions": frames.max(1), "traces_validated_against_impl": histories, "samples": samples, "exhaustive": true,
         "histories_with_effect": with_effect,
-        "explanation": format!("states = histories executed on the real appendonly server and re-executed from its log on the real twin; transitions = command frames decoded from the log. Complete product: {} key states x {} paths (direct, MULTI/EXEC, EVAL forwarding script, EVALSHA of it, the same in database 1, EVALSHA with the digest in upper case) x {} catalogue entries (every write command of the dispatch table in effective, no-op and refused variants, commands with random outcomes, scripts with one / two / random / no writes), plus every ordered pair of catalogue entries from the empty dataset (thorough: from every key state) and 8 blocking scenarios (a blocked BLPOP/BRPOP served by RPUSH/LPUSH, by a push inside EXEC and from a script, two waiters, two keys, served at once, timed out), plus every sequence of 2 (thorough 3) turns of three connections parked in databases 0, 1 and 15 over a menu of 8 writes (direct, queued, scripted, random outcome). After every step: appended bytes decode into whole command arrays with nothing left over; a step that changed the dataset appended at least one and at most one command image; a command with a random outcome is not logged verbatim. At the end: FLUSHALL + SCRIPT FLUSH on the twin, the whole file re-executed over TCP in order, API-level dump of all 16 databases equal (values; TTL presence). fsync policy always (thorough: also no, everysec).", sts.len(), PATHS.len(), cat.len()),
+        "explanation": format!("states = histories executed on the real appendonly server and re-executed from its log on the real twin; transitions = command frames decoded from the log. Complete product: {} key states x {} paths (direct, MULTI/EXEC, EVAL forwarding script, EVALSHA of it, the same in database 1, EVALSHA with the digest in upper case) x {} catalogue entries (every write command of the dispatch table in effective, no-op and refused variants, commands with random outcomes, scripts with one / two / random / no writes), plus every ordered pair of catalogue entries from the empty dataset (thorough: from every key state) and 8 blocking scenarios (a blocked BLPOP/BRPOP served by RPUSH/LPUSH, by a push inside EXEC and from a script, two waiters, two keys, served at once, timed out), plus every sequence of 2 (thorough 3) turns of three connections parked in databases 0, 1 and 15 over a menu of 9 writes (direct, queued, behind a queued SELECT, scripted, random outcome). After every step: appended bytes decode into whole command arrays with nothing left over; a step that changed the dataset appended at least one and at most one command image; a command with a random outcome is not logged verbatim. At the end: FLUSHALL + SCRIPT FLUSH on the twin, the whole file re-executed over TCP in order, API-level dump of all 16 databases equal (values; TTL presence). fsync policy always (thorough: also no, everysec).", sts.len(), PATHS.len(), cat.len()),
     });
     report.assumptions = vec![
         "the clock does not move inside a history: expiry is not a command and the statement compares TTL presence only".into(),
